@@ -1004,6 +1004,9 @@ def c13_eval(ctx):
                             bad = "op#%d truncated stream ended with st=%s" % (k, st)
                         elif w[2].endswith(":4") and st != "-5":
                             bad = "op#%d finish on a truncated stream must be a buffer error, got %s" % (k, st)
+                    elif o["verdict"] == "err" and o.get("ekind") == "distance":
+                        pass    # inflate() decodes into its own 32 KiB ring: a distance reaching before the start of the output
+                                # reads the (zeroed) window and is not an error there (C04: ring-window semantics in wrapping mode)
                     elif o["verdict"] != "done" and st == "1":
                         bad = "op#%d stream end reported on a stream the specification does not accept (%s)" % (k, o["verdict"])
                     if bad:
